@@ -1,4 +1,4 @@
-use model::data::{Component, Check, DynOption, U16, MessageOption, U32, DataType, Message};
+use model::data::{Component, DynOption, U16, MessageOption, U32, DataType, Message};
 use model::error::{RdpResult, Error, RdpError, RdpErrorKind};
 use std::io::{Cursor, Read};
 use num_enum::TryFromPrimitive;
@@ -69,7 +69,7 @@ pub enum StateTransition {
 fn preamble() -> Component {
     component![
         "bMsgtype" => 0 as u8,
-        "flag" => Check::new(Preambule::PreambleVersion30 as u8),
+        "flag" => Preambule::PreambleVersion30 as u8,
         "wMsgSize" => DynOption::new(U16::LE(0), |size| MessageOption::Size("message".to_string(), if size.inner() >= 4 { size.inner() as usize - 4 } else { 0 })),
         "message" => Vec::<u8>::new()
     ]
